@@ -192,6 +192,12 @@ def render(e):
         return "$" + e[1]
     if k == "reduce":
         return "((" + render(e[1]) + ") as $" + e[2] + " ireduce (" + render(e[3]) + "; " + render(e[4]) + "))"
+    if k == "object":
+        return "{" + ", ".join(json.dumps(kk) + ": " + render(v) for kk, v in e[1]) + "}"
+    if k == "join":
+        return "join(" + render(e[1]) + ")"
+    if k == "split":
+        return "split(" + render(e[1]) + ")"
     if k == "assign":
         return "(" + render(e[1]) + " = " + render(e[2]) + ")"
     if k == "update":
@@ -246,6 +252,12 @@ def coq_expr(e):
         return "(EVar %s)" % vlib.coq_str(e[1])
     if k == "reduce":
         return "(EReduce %s %s %s %s)" % (coq_expr(e[1]), vlib.coq_str(e[2]), coq_expr(e[3]), coq_expr(e[4]))
+    if k == "object":
+        return "(EObject [%s])" % ";".join("(ELit TStr %s, %s)" % (vlib.coq_str(kk), coq_expr(v)) for kk, v in e[1])
+    if k == "join":
+        return "(EJoin %s)" % coq_expr(e[1])
+    if k == "split":
+        return "(ESplit %s)" % coq_expr(e[1])
     if k == "assign":
         return "(EAssign %s %s)" % (coq_expr(e[1]), coq_expr(e[2]))
     if k == "update":
@@ -262,9 +274,13 @@ def coq_Z(z):
 def ops_of(e, acc=None):
     acc = acc if acc is not None else []
     acc.append(e[0])
+    if e[0] == "object":
+        for _, v in e[1]:
+            ops_of(v, acc)
+        return acc
     for x in e[1:]:
         if isinstance(x, tuple) and x and isinstance(x[0], str) and (x[0] in NULLARY or x[0] in UNARY or x[0] in BINOPS or x[0] in
-            ("lit", "getkey", "index", "slice", "pipe", "union", "collect", "contains", "unique", "sort", "flatten", "as", "var", "reduce", "assign", "update", "compound")):
+            ("lit", "getkey", "index", "slice", "pipe", "union", "collect", "contains", "unique", "sort", "flatten", "as", "var", "reduce", "assign", "update", "compound", "object", "join", "split")):
             ops_of(x, acc)
     return acc
 
@@ -403,7 +419,12 @@ class Gen:
                                ("add", ("self",), ("pipe", ("var", x), ("length",))),
                                ("collect", ("union", ("self",), ("pipe", ("var", x), ("index", ("self",), lit(rng.choice([0, 2]))))))])
             return ("reduce", self.path(d), x, lit(rng.choice([0, "", None])), body)
-        if r < 0.97:
+        if r < 0.955:
+            ks = rng.sample(["k", "m", "a", "z"], rng.choice([1, 2, 2, 3]))
+            return ("object", [(kk, self.scalar(d - 1, vs)) for kk in ks]) if rng.random() < 0.8 else ("object", [])
+        if r < 0.965:
+            return ("pipe", sub(), (rng.choice(["join", "split"]), lit(rng.choice([",", "a", " ", "--"]))))
+        if r < 0.98:
             return ("pipe", sub(), ("pipe", ("to_entries",), ("from_entries",)))
         return ("index", sub(), lit(rng.choice([0, 1, -1])) if rng.random() < 0.7 else None)
 
